@@ -3,12 +3,25 @@
 //
 // A case is a tree plus a route:
 //
-//	scan <route> <seed> <variants>       route r = real directory scan root (DirectFS), v = virtual FS (ScanRoot.Path == ""), Linux capabilities;
+//	scan <route> <seed> <variants> [<profile>]
+//	                                     route r = real directory scan root (DirectFS), v = virtual FS (ScanRoot.Path == ""), Linux capabilities;
 //	                                     w/x = the same with Windows capabilities, m/n with macOS capabilities
+//	  profile (scan options; default 0): 0 none
+//	    1 PathsToExtract (directories, a file, a missing path) + UseGitignore (.gitignore files in the tree)
+//	    2 ReadSymlinks + StoreAbsolutePath + MaxFileSize 2048; a seeded third of the production files are symbolic links to copies
+//	      OUTSIDE the scanned tree (directory `outside`, snapshotted too: field out=), plus a dangling link
+//	    3 PathsToExtract + IgnoreSubDirs + DirsToSkip + SkipDirGlob + SkipDirRegex + ErrorOnFSErrors
+//	    4 MaxInodes 25 (the walk ends with an error part-way) + UseGitignore
+//	    5 the rpm, .NET PE and containerd extractors configured: a stats collector, rpm Timeout 0 (ListPackages without a deadline)
+//	    7 TMPDIR names a directory that does not exist (GetRealPath / the rpm SQLite copy cannot make their temporary directory)
+//	    8 no extractor at all; 9 the context is cancelled before the scan starts; a PathsToExtract entry outside every scan root
+//	    6 the same three with small size limits (rpm / PE MaxFileSizeBytes 4096, containerd MaxMetaDBFileSize 1000) and a collector
 //
 // <variants> has one character per entry of the file table below: 0 valid (content copied from the repository's
 // fixtures, which are never scanned in place), 1 zero bytes, 2 truncated to half, 3 random bytes of the same length,
-// 4 eight random bytes flipped, 5 missing.  Files are written 0644, directories 0755, by the scanning user, so an
+// 4 eight random bytes flipped, 5 missing, 9 a DIRECTORY of that name (reads fail with EISDIR), 7 / 8 the first / second
+// alternative valid content where the table has one, 6 valid on disk but (virtual routes only) every Read of the file through the scan file
+// system fails after half of its bytes (an I/O error of the remote / container file system).  Files are written 0644, directories 0755, by the scanning user, so an
 // illegitimate write succeeds and shows.  TMPDIR and the working directory are fresh per scan.  The snapshot taken
 // before and after the scan records, for the scanned tree, the working directory and TMPDIR: the set of paths, and per
 // path type and full mode, and for files and links size, mtime (ns), link target and SHA-256.  Anything that differs
@@ -27,21 +40,32 @@ import (
 	"crypto/sha256"
 	"database/sql"
 	"encoding/hex"
+	"errors"
 	"fmt"
+	"io"
 	"io/fs"
 	"math/rand"
 	"os"
 	"path/filepath"
+	"regexp"
 	"runtime/debug"
 	"sort"
 	"strconv"
 	"strings"
+	"syscall"
 
+	"github.com/erikvarga/go-rpmdb/pkg/bdb"
+	"github.com/gobwas/glob"
 	scalibr "github.com/google/osv-scalibr"
+	"github.com/google/osv-scalibr/extractor/filesystem"
+	"github.com/google/osv-scalibr/extractor/filesystem/containers/containerd"
+	"github.com/google/osv-scalibr/extractor/filesystem/language/dotnet/dotnetpe"
 	"github.com/google/osv-scalibr/extractor/filesystem/list"
+	"github.com/google/osv-scalibr/extractor/filesystem/os/rpm"
 	scalibrfs "github.com/google/osv-scalibr/fs"
 	"github.com/google/osv-scalibr/log"
 	"github.com/google/osv-scalibr/plugin"
+	"github.com/google/osv-scalibr/stats"
 	_ "github.com/mattn/go-sqlite3"
 
 	"verif/harness/hx"
@@ -69,12 +93,12 @@ var specs = []spec{
 	{"var/lib/dpkg/status.d/foo", "os/dpkg/testdata/dpkg", "single", ""},
 	{"usr/lib/opkg/status", "os/dpkg/testdata/opkg", "", ""},
 	{"lib/apk/db/installed", "os/apk/testdata", "installed", ""},
-	{"usr/share/rpm/Packages", "os/rpm/testdata", "=Packages", ""},
+	{"usr/share/rpm/Packages", "os/rpm/testdata", "=Packages_epoch", ""}, // the one Berkeley DB fixture of the repository that holds packages
 	{"usr/share/rpm/__db.001", "", "", "\x00\x00\x00\x00berkeley region file stand-in\n"},
 	{"usr/share/rpm/.dbenv.lock", "", "", ""},
 	{"usr/share/rpm/.rpm.lock", "", "", ""},
 	{"usr/share/rpm/Packages.db", "os/rpm/testdata", "=Packages.db", ""},
-	{"var/lib/rpm/rpmdb.sqlite", "os/rpm/testdata", "=rpmdb.sqlite", ""},
+	{"var/lib/rpm/rpmdb.sqlite", "", "", "#rpm-sqlite"}, // generated: the header blobs of the Berkeley DB fixture in an SQLite rpmdb
 	{"var/lib/rpm/rpmdb.sqlite-journal", "", "", "#missing"},
 	{"usr/lib/sysimage/rpm/rpmdb.sqlite", "", "", "#wal-db"},
 	{"usr/lib/sysimage/rpm/rpmdb.sqlite-wal", "", "", "#wal-wal"},
@@ -90,7 +114,7 @@ var specs = []spec{
 	{"home/u/.config/google-chrome/Default/Extensions/aapbdbdomjkkjkaonfhkkikfgjllcleb/1.0_0/_locales/en/message.json", "", "", "{\"name\":{\"message\":\"Ext\"}}"},
 	{"var/lib/containerd/io.containerd.metadata.v1.bolt/meta.db", "containers/containerd/testdata", "meta_linux_test_single.db", ""},
 	{"var/lib/containerd/io.containerd.snapshotter.v1.overlayfs/metadata.db", "containers/containerd/testdata", "metadata_linux_test.db", ""},
-	{"var/lib/containerd/io.containerd.grpc.v1.cri/containers/b47fb93b51d091e16ae145b8b1438e5c011fd68cd65305fcd42fd83a13da7a8c/status", "containers/containerd/testdata", "status", ""},
+	{"var/lib/containerd/io.containerd.grpc.v1.cri/containers/b47fb93b51d091e16ae145b8b1438e5c011fd68cd65305fcd42fd83a13da7a8c/status", "", "", "{\"Pid\":8915,\"CreatedAt\":1700000000,\"StartedAt\":1700000001,\"Message\":\"\"}"},
 	{"usr/lib/python3/dist-packages/x-1.0.dist-info/METADATA", "language/python/wheelegg/testdata", "distinfo_meta", ""},
 	{"usr/lib/python3/dist-packages/y-1.0.egg-info/PKG-INFO", "language/python/wheelegg/testdata", "pkginfo", ""},
 	{"usr/lib/python3/dist-packages/monotonic-1.6-py3.10.egg", "language/python/wheelegg/testdata", "monotonic-1.6", ""},
@@ -143,7 +167,21 @@ var specs = []spec{
 	// clean-up with it, also on the virtual route (fix 01c65931: the clean-up removed "file" in the working directory)
 	{"app/Magic.dll", "", "", "#pe"},
 	{"app/Magic.exe", "", "", "#pe"},
+	// a real .exe (no CLR tables: the extractor falls back to the version resources) and the state file of a Windows (runhcs) container
+	{"app/HelloWorldApp.exe", "language/dotnet/dotnetpe/testdata", "HelloWorldApp.exe", ""},
+	{"ProgramData/containerd/state/io.containerd.runtime.v2.task/default/test_pod/shim.pid", "", "", "4242\n"},
 }
+
+// other VALID contents of a production file (variants 7, 8: the first, the second alternative; without one they mean 0)
+var altSpecs = map[string][]spec{
+	"var/lib/containerd/io.containerd.metadata.v1.bolt/meta.db": {{"", "containers/containerd/testdata", "meta_windows.db", ""}},
+	"var/lib/containerd/io.containerd.grpc.v1.cri/containers/b47fb93b51d091e16ae145b8b1438e5c011fd68cd65305fcd42fd83a13da7a8c/status": {
+		{"", "", "", "{\"Pid\":\"not a number\"}"}, {"", "", "", "{\"State\":\"running\"}"}},
+	"ProgramData/containerd/state/io.containerd.runtime.v2.task/default/test_pod/shim.pid": {{"", "", "", "not a number\n"}},
+	"etc/os-release":     {{"", "", "", "ID=rhel\nBUILD_ID=20240101\n"}, {"", "", "", "ID=rocky\nVERSION_ID=\"9.3\"\n"}},
+	"usr/lib/os-release": {{"", "", "", "NAME=x\n"}},
+}
+var alts [][][]byte
 
 // group: an extractor's primary file and the auxiliary files it opens (or that its database library looks for) itself
 type group struct {
@@ -175,6 +213,7 @@ var osGroups = []struct {
 	{"app/Magic.dll", "wx"},
 	{"app/Magic.exe", "wx"},
 	{"app/HelloWorldApp.dll", "wx"},
+	{"app/HelloWorldApp.exe", "wx"},
 }
 
 func repoRoot() string {
@@ -239,6 +278,89 @@ func walTrio(base string, rpmdb []byte) (db, wal, shm []byte) {
 	must(err)
 	h.Close()
 	return
+}
+
+// rpmSqlite builds an SQLite rpmdb (table Packages(hnum, blob)) from the header blobs of a Berkeley DB Packages file.
+func rpmSqlite(base string, bdbFile []byte) []byte {
+	dir := filepath.Join(base, "rpmgen")
+	must(os.MkdirAll(dir, 0o755))
+	defer os.RemoveAll(dir)
+	src := filepath.Join(dir, "Packages")
+	must(os.WriteFile(src, bdbFile, 0o644))
+	p := filepath.Join(dir, "rpmdb.sqlite")
+	h, err := sql.Open("sqlite3", "file:"+p)
+	must(err)
+	h.SetMaxOpenConns(1)
+	_, err = h.Exec("CREATE TABLE Packages (hnum INTEGER PRIMARY KEY AUTOINCREMENT, blob BLOB NOT NULL)")
+	must(err)
+	if b, err := bdb.Open(src); err == nil {
+		for e := range b.Read(context.Background()) {
+			if e.Err != nil {
+				break
+			}
+			_, err = h.Exec("INSERT INTO Packages(blob) VALUES (?)", e.Value)
+			must(err)
+		}
+		b.Close()
+	}
+	must(h.Close())
+	out, err := os.ReadFile(p)
+	must(err)
+	return out
+}
+
+// flakyFS: the scan file system of the virtual routes; Read on the files in `fail` returns an I/O error after half the bytes
+type flakyFS struct {
+	scalibrfs.FS
+	fail map[string]int // path -> bytes delivered before the error
+}
+
+type flakyFile struct {
+	fs.File
+	left int
+}
+
+var errIO = errors.New("input/output error (injected)")
+
+func (f *flakyFile) Read(b []byte) (int, error) {
+	if f.left <= 0 {
+		return 0, errIO
+	}
+	if len(b) > f.left {
+		b = b[:f.left]
+	}
+	n, err := f.File.Read(b)
+	f.left -= n
+	return n, err
+}
+
+// ReadAt / Seek of the underlying file stay reachable for the extractors that ask for them
+func (f *flakyFile) ReadAt(b []byte, off int64) (int, error) {
+	if r, ok := f.File.(io.ReaderAt); ok {
+		if int(off)+len(b) > f.left {
+			return 0, errIO
+		}
+		return r.ReadAt(b, off)
+	}
+	return 0, errors.New("not a ReaderAt")
+}
+
+func (f *flakyFile) Seek(off int64, whence int) (int64, error) {
+	if r, ok := f.File.(io.Seeker); ok {
+		return r.Seek(off, whence)
+	}
+	return 0, errors.New("not a Seeker")
+}
+
+func (x flakyFS) Open(name string) (fs.File, error) {
+	f, err := x.FS.Open(name)
+	if err != nil {
+		return nil, err
+	}
+	if n, ok := x.fail[name]; ok {
+		return &flakyFile{f, n}, nil
+	}
+	return f, nil
 }
 
 func must(err error) {
@@ -308,7 +430,10 @@ func index(path string) int {
 	panic("no such file in the table: " + path)
 }
 
-func runCase(route byte, seed int64, variants string, id int) string {
+func runCase(route byte, seed int64, variants string, id int, profile byte) string {
+	if len(variants) < len(specs) && len(variants) >= 74 {
+		variants += string(defaults[len(variants):]) // a case line written before the table grew: the new files in their default state
+	}
 	if len(variants) != len(specs) {
 		return "bad-case"
 	}
@@ -318,15 +443,25 @@ func runCase(route byte, seed int64, variants string, id int) string {
 	defer debug.SetPanicOnFault(debug.SetPanicOnFault(true))
 	cr := rand.New(rand.NewSource(seed))
 	root := filepath.Join(base, fmt.Sprintf("s%d", id))
-	tree, tmp, cwd := filepath.Join(root, "tree"), filepath.Join(root, "tmp"), filepath.Join(root, "cwd")
-	for _, d := range []string{tree, tmp, cwd} {
+	tree, tmp, cwd, outside := filepath.Join(root, "tree"), filepath.Join(root, "tmp"), filepath.Join(root, "cwd"), filepath.Join(root, "outside")
+	for _, d := range []string{tree, tmp, cwd, outside} {
 		must(os.MkdirAll(d, 0o755))
 	}
 	defer os.RemoveAll(root)
+	flaky := map[string]int{}
 	for k, s := range specs {
 		b := contents[k]
 		switch variants[k] {
 		case '0':
+		case '6':
+			flaky[s.path] = len(b) / 2
+		case '9':
+			must(os.MkdirAll(filepath.Join(tree, filepath.FromSlash(s.path)), 0o755))
+			continue
+		case '7', '8':
+			if k := int(variants[k] - '7'); k < len(alts[index(s.path)]) {
+				b = alts[index(s.path)][k]
+			}
 		case '1':
 			b = nil
 		case '2':
@@ -347,14 +482,35 @@ func runCase(route byte, seed int64, variants string, id int) string {
 		}
 		p := filepath.Join(tree, filepath.FromSlash(s.path))
 		must(os.MkdirAll(filepath.Dir(p), 0o755))
+		if profile == '2' && cr.Intn(3) == 0 {
+			// the production path is a symbolic link to the file, which lives outside the scanned tree
+			o := filepath.Join(outside, fmt.Sprintf("f%d-%s", k, filepath.Base(s.path)))
+			must(os.WriteFile(o, b, 0o644))
+			must(os.Symlink(o, p))
+			continue
+		}
 		must(os.WriteFile(p, b, 0o644))
+	}
+	switch profile {
+	case '1', '4':
+		// a symbolic link and a fifo in the tree while ReadSymlinks is off
+		must(os.MkdirAll(filepath.Join(tree, "app"), 0o755))
+		must(os.Symlink("requirements.txt", filepath.Join(tree, "app", "dev-requirements.txt")))
+		_ = syscall.Mkfifo(filepath.Join(tree, "app", "pipe.lock"), 0o644)
+		must(os.WriteFile(filepath.Join(tree, ".gitignore"), []byte("node_modules\n*.jar\n/boot\n"), 0o644))
+		must(os.MkdirAll(filepath.Join(tree, "app"), 0o755))
+		must(os.WriteFile(filepath.Join(tree, "app", ".gitignore"), []byte("Cargo.*\n!Cargo.lock\nlib/\n"), 0o644))
+	case '2':
+		must(os.MkdirAll(filepath.Join(tree, "app", "lib"), 0o755))
+		must(os.Symlink("/nonexistent/verif/x.jar", filepath.Join(tree, "app", "lib", "dangling.jar")))
+		must(os.Symlink(outside, filepath.Join(tree, "app", "outside-dir")))
 	}
 	orig, _ := os.Getwd()
 	os.Setenv("TMPDIR", tmp)
 	os.Setenv("SQLITE_TMPDIR", tmp)
 	must(os.Chdir(cwd))
 	defer os.Chdir(orig)
-	before, tb, cb := snapshot(tree), snapshot(tmp), snapshot(cwd)
+	before, tb, cb, ob := snapshot(tree), snapshot(tmp), snapshot(cwd), snapshot(outside)
 	// routes: r/v = Linux capabilities, real directory root / virtual FS; w/x = Windows, m/n = macOS likewise (extractors that
 	// require another OS, e.g. the .NET PE one, only run under that profile; their code is plain file parsing)
 	osCap, real := plugin.OSLinux, route == 'r'
@@ -367,9 +523,61 @@ func runCase(route byte, seed int64, variants string, id int) string {
 	caps := &plugin.Capabilities{OS: osCap, Network: plugin.NetworkOffline, DirectFS: real, RunningSystem: false}
 	roots := scalibrfs.RealFSScanRoots(tree)
 	if !real {
-		roots = []*scalibrfs.ScanRoot{{FS: scalibrfs.DirFS(tree), Path: ""}}
+		roots = []*scalibrfs.ScanRoot{{FS: flakyFS{scalibrfs.DirFS(tree), flaky}, Path: ""}}
 	}
 	exs := list.FromCapabilities(caps)
+	cfg := &scalibr.ScanConfig{FilesystemExtractors: exs, Capabilities: caps, ScanRoots: roots}
+	in := func(ps ...string) []string {
+		var out []string
+		for _, q := range ps {
+			out = append(out, filepath.Join(tree, filepath.FromSlash(q)))
+		}
+		return out
+	}
+	switch profile {
+	case '1':
+		cfg.PathsToExtract = in("app", "var/lib/dpkg/status", "usr/lib/sysimage/rpm", "var/lib/containerd", "usr/share/rpm", "no/such/path")
+		cfg.UseGitignore = true
+		cfg.SkipDirGlob = glob.MustCompile("**/node_modules")
+		cfg.SkipDirRegex = regexp.MustCompile("gradle$")
+	case '2':
+		cfg.ReadSymlinks, cfg.StoreAbsolutePath, cfg.MaxFileSize = true, true, 2048
+	case '3':
+		cfg.PathsToExtract, cfg.IgnoreSubDirs = in("app", "var/lib/rpm", "usr/share/rpm"), true
+		cfg.DirsToSkip = in("app/lib")
+		cfg.SkipDirGlob = glob.MustCompile("**/node_modules")
+		cfg.SkipDirRegex = regexp.MustCompile("gradle$")
+		cfg.ErrorOnFSErrors = true
+	case '4':
+		cfg.MaxInodes, cfg.UseGitignore = 25, true
+	case '7':
+		os.Setenv("TMPDIR", filepath.Join(tmp, "missing"))
+		os.Setenv("SQLITE_TMPDIR", filepath.Join(tmp, "missing"))
+	case '8':
+		cfg.FilesystemExtractors = nil
+	case '9':
+		cfg.PathsToExtract = append(in("app"), "/etc")
+	case '5', '6':
+		var lim int64
+		mdb := containerd.DefaultConfig().MaxMetaDBFileSize
+		if profile == '6' {
+			lim, mdb = 4096, 1000
+		}
+		repl := map[string]filesystem.Extractor{
+			rpm.Name:        rpm.New(rpm.Config{Stats: stats.NoopCollector{}, MaxFileSizeBytes: lim, Timeout: 0}),
+			dotnetpe.Name:   dotnetpe.New(dotnetpe.Config{Stats: stats.NoopCollector{}, MaxFileSizeBytes: lim}),
+			containerd.Name: containerd.New(containerd.Config{MaxMetaDBFileSize: mdb}),
+		}
+		var out []filesystem.Extractor
+		for _, e := range exs {
+			if r, ok := repl[e.Name()]; ok {
+				e = r
+			}
+			out = append(out, e)
+		}
+		cfg.FilesystemExtractors = out
+		cfg.Stats = stats.NoopCollector{}
+	}
 	status, pkgs, pmsg := "ok", 0, "-"
 	func() {
 		defer func() {
@@ -382,14 +590,21 @@ func runCase(route byte, seed int64, variants string, id int) string {
 				pmsg = hx.Hex(m)
 			}
 		}()
-		res := scalibr.New().Scan(context.Background(), &scalibr.ScanConfig{FilesystemExtractors: exs, Capabilities: caps, ScanRoots: roots})
+		ctx := context.Background()
+		if profile == '9' && seed%2 == 0 {
+			c2, cancel := context.WithCancel(ctx)
+			cancel()
+			ctx = c2
+			cfg.PathsToExtract = nil
+		}
+		res := scalibr.New().Scan(ctx, cfg)
 		if res.Status == nil || res.Status.Status != plugin.ScanStatusSucceeded {
 			status = "failed"
 		}
 		pkgs = len(res.Inventory.Packages)
 	}()
-	after, ta, ca := snapshot(tree), snapshot(tmp), snapshot(cwd)
-	return fmt.Sprintf("status=%s ext=%d pkgs=%d diff=%s tmp=%s cwd=%s panic=%s", status, len(exs), pkgs, diff(before, after), diff(tb, ta), diff(cb, ca), pmsg)
+	after, ta, ca, oa := snapshot(tree), snapshot(tmp), snapshot(cwd), snapshot(outside)
+	return fmt.Sprintf("status=%s ext=%d pkgs=%d diff=%s tmp=%s cwd=%s out=%s panic=%s", status, len(exs), pkgs, diff(before, after), diff(tb, ta), diff(cb, ca), diff(ob, oa), pmsg)
 }
 
 func main() {
@@ -428,25 +643,41 @@ func main() {
 		}
 		contents[i] = fixture(s)
 	}
+	alts = make([][][]byte, len(specs))
+	for i, s := range specs {
+		for _, a := range altSpecs[s.path] {
+			alts[i] = append(alts[i], fixture(a))
+		}
+	}
+	contents[index("var/lib/rpm/rpmdb.sqlite")] = rpmSqlite(base, contents[index("usr/share/rpm/Packages")])
 	db, wal, shm := walTrio(base, contents[index("var/lib/rpm/rpmdb.sqlite")])
 	contents[index("usr/lib/sysimage/rpm/rpmdb.sqlite")] = db
 	contents[index("usr/lib/sysimage/rpm/rpmdb.sqlite-wal")] = wal
 	contents[index("usr/lib/sysimage/rpm/rpmdb.sqlite-shm")] = shm
 
 	id := 0
-	emit := func(route byte, seed int64, variants string) {
+	emitP := func(route byte, seed int64, variants string, profile byte) {
 		id++
-		out.Emit(fmt.Sprintf("scan %c %d %s", route, seed, variants), runCase(route, seed, variants, id))
+		line := fmt.Sprintf("scan %c %d %s", route, seed, variants)
+		if profile != '0' {
+			line += " " + string(profile)
+		}
+		out.Emit(line, runCase(route, seed, variants, id, profile))
 	}
+	emit := func(route byte, seed int64, variants string) { emitP(route, seed, variants, '0') }
 	if o.Replay != "" {
 		for _, l := range hx.ReplayLines(o.Replay) {
 			t := strings.Split(l, " ")
-			if len(t) != 4 || t[0] != "scan" || len(t[1]) != 1 {
+			if (len(t) != 4 && len(t) != 5) || t[0] != "scan" || len(t[1]) != 1 {
 				panic("bad case line " + l)
 			}
 			seed, err := strconv.ParseInt(t[2], 10, 64)
 			must(err)
-			emit(t[1][0], seed, t[3])
+			prof := byte('0')
+			if len(t) == 5 {
+				prof = t[4][0]
+			}
+			emitP(t[1][0], seed, t[3], prof)
 		}
 		return
 	}
@@ -504,14 +735,52 @@ func main() {
 			}
 		}
 	}
+	// every file that an extractor copies out of a virtual file system (GetRealPath: rpm databases, PE files), and a few others,
+	// with a read error half-way, one at a time; then all of them at once
+	var all6 = map[int]byte{}
+	for _, q := range []string{"usr/share/rpm/Packages", "usr/share/rpm/Packages.db", "var/lib/rpm/rpmdb.sqlite", "usr/lib/sysimage/rpm/rpmdb.sqlite",
+		"app/HelloWorldApp.dll", "app/Magic.dll", "app/Magic.exe", "app/lib/a.jar", "usr/bin/gobin", "var/lib/dpkg/status", "app/package-lock.json"} {
+		k := index(q)
+		all6[k] = '6'
+		for _, route := range []byte("vx") {
+			emit(route, 6, with(map[int]byte{k: '6'}))
+		}
+	}
+	emit('v', 66, with(all6))
+	emit('x', 66, with(all6))
+	// a directory where a database or one of its side files is expected
+	for _, q := range []string{"usr/lib/sysimage/rpm/rpmdb.sqlite-wal", "usr/lib/sysimage/rpm/rpmdb.sqlite-shm", "var/lib/rpm/rpmdb.sqlite-journal", "var/lib/rpm/rpmdb.sqlite",
+		"usr/share/rpm/Packages", "var/lib/containerd/io.containerd.snapshotter.v1.overlayfs/metadata.db", "app/Magic.dll"} {
+		for _, route := range []byte("rv") {
+			emit(route, 9, with(map[int]byte{index(q): '9'}))
+		}
+	}
+	// the alternative valid contents, one at a time and the containerd ones together
+	for i := range specs {
+		for a := range alts[i] {
+			for _, route := range []byte("rv") {
+				emit(route, 7, with(map[int]byte{i: byte('7' + a)}))
+			}
+		}
+	}
+	emit('r', 78, with(map[int]byte{index("var/lib/containerd/io.containerd.metadata.v1.bolt/meta.db"): '7',
+		index("ProgramData/containerd/state/io.containerd.runtime.v2.task/default/test_pod/shim.pid"): '7'}))
+	// the scan options, on the pristine tree and on a damaged one, both kinds of root
+	for _, prof := range []byte("123456789") {
+		for _, route := range []byte("rvwx") {
+			emitP(route, 1, with(nil), prof)
+			emitP(route, 2, with(map[int]byte{index("var/lib/rpm/rpmdb.sqlite"): '2', index("usr/lib/sysimage/rpm/rpmdb.sqlite-wal"): '0',
+				index("usr/lib/sysimage/rpm/rpmdb.sqlite-shm"): '0', index("app/HelloWorldApp.dll"): '4'}), prof)
+		}
+	}
 	r := hx.Rng(o)
 	for i := 0; i < o.N; i++ {
 		seed := r.Int63()
 		cr := rand.New(rand.NewSource(seed))
 		v := make([]byte, len(specs))
 		for k := range v {
-			v[k] = "0000123455"[cr.Intn(10)]
+			v[k] = "00001234556789"[cr.Intn(14)]
 		}
-		emit("rvrvwxmn"[i%8], seed, string(v))
+		emitP("rvrvwxmn"[i%8], seed, string(v), "0000123456789"[cr.Intn(13)])
 	}
 }
